@@ -7,6 +7,7 @@ import (
 	"go/types"
 	"path/filepath"
 	"sort"
+	"strconv"
 	"strings"
 
 	"golang.org/x/tools/go/packages"
@@ -132,9 +133,19 @@ func (r Registry) searchImport(name string) (*Package, bool) {
 // resolveImportConflict generates and assigns a unique alias for
 // packages with conflicting qualifiers.
 func (r Registry) resolveImportConflict(a, b *Package, lvl int) {
-	if a.uniqueName(lvl) == b.uniqueName(lvl) {
-		r.resolveImportConflict(a, b, lvl+1)
-		return
+	if name := a.uniqueName(lvl); name == b.uniqueName(lvl) {
+		if lvl < a.depth() || lvl < b.depth() {
+			r.resolveImportConflict(a, b, lvl+1)
+			return
+		}
+		// The whole paths sanitise to the same name (ex: x/foo-bar and
+		// x/foobar), more path components cannot help: number the new one.
+		for n := 2; ; n++ {
+			if _, ok := r.searchImport(name + strconv.Itoa(n)); !ok {
+				a.Alias = name + strconv.Itoa(n)
+				return
+			}
+		}
 	}
 
 	for _, p := range []*Package{a, b} {
@@ -143,8 +154,9 @@ func (r Registry) resolveImportConflict(a, b *Package, lvl int) {
 		// got, the new name we want to pick might already be taken. So check
 		// again for conflicts and resolve them as well. Since the name for
 		// this package would also get set in the recursive function call, skip
-		// setting the alias after it.
-		if conflict, ok := r.searchImport(name); ok && conflict != p {
+		// setting the alias after it. A name held by the other package of
+		// this pair is about to be given up, so that is no conflict.
+		if conflict, ok := r.searchImport(name); ok && conflict != p && conflict != a && conflict != b {
 			r.resolveImportConflict(p, conflict, lvl+1)
 			continue
 		}
